@@ -144,8 +144,26 @@ def check(pid, tier, args):
                 f.write(json.dumps(u) + "\n")
         run.cov["usage_combinations"] = len(ru.printed)
         extra = ["-usage", up]
-    p = vlib.run([drive, "loads", "-cases", ",".join(cases), "-out", out, "-tier", tier,
-                  "-seed", str(vlib.seed()), "-props", pid.lower(), "-repo", vlib.REPO] + extra, timeout=6000)
+    cmd = [drive, "loads", "-cases", ",".join(cases), "-out", out, "-tier", tier,
+           "-seed", str(vlib.seed()), "-props", pid.lower(), "-repo", vlib.REPO] + extra
+    p = vlib.run(cmd, timeout=6000, check=False)
+    if p.returncode != 0:
+        # a fatal runtime error inside a loader (stack exhaustion, concurrent map writes ...) cannot be
+        # recovered by anybody: the process dies.  That death is an observation of the real code, claimed
+        # once it has been seen a second time; anything else is machinery.
+        def fatal(pr):
+            return pr.returncode != 0 and ("fatal error:" in pr.stderr or "panic:" in pr.stderr) and "mandykoh/prism/meta" in pr.stderr
+        if not fatal(p):
+            raise vlib.Infra("loads driver failed (%d): %s" % (p.returncode, p.stderr[-2000:]))
+        again = vlib.run(cmd, timeout=6000, check=False)
+        if not fatal(again):
+            raise vlib.Infra("loads driver died once with a runtime error inside the library and not again: %s" % p.stderr[-1500:])
+        first = [l for l in again.stderr.splitlines() if l.startswith("fatal error:") or l.startswith("panic:") or l.startswith("runtime:")][:2]
+        frames = [l.strip() for l in again.stderr.splitlines() if "mandykoh/prism/meta" in l][:4]
+        run.violation({"finding_key": None, "stderr_first": p.stderr[:1500], "stderr_second": again.stderr[:1500]},
+                      "the process died twice inside a loader (%s): %s" % ("; ".join(first), "; ".join(frames)[:300]))
+        run.cov["traces_validated_against_impl"] = 0
+        return run.finish()
     stats = json.loads(p.stdout.strip().splitlines()[-1])
     trace = os.path.join(out, pid.lower() + ".ndjson")
     # 3. TLC judges every observation with LoadContract
